@@ -214,10 +214,15 @@ def walk_contract(ck, ld):
     DRFP, DMDP = {"drf_properties.h5", "metadata.h5"}, {"dmd_properties.h5", "metadata.h5"}
     n = 0
     bad = []
+    badw = []
+    # window endpoints as the caller may give them: absent, naive (documented as UTC), aware in UTC and aware with other offsets -
+    # the listing must receive the same INSTANT (as a timedelta since the epoch) in every case
+    tz = lambda h, m=0: _dt.timezone(_dt.timedelta(hours=h, minutes=m))
+    WINDOWS = (False, True, ("naive", None), ("+02:00", tz(2)), ("-05:00", tz(-5)), ("+05:30", tz(5, 30)), ("start_only", tz(-3)), ("end_only", tz(9)))
     for tname, tree in trees.items():
         top = "/T"
         for inc_drf, inc_dmd, pdrf, pdmd, recursive, reverse, window in itertools.product((True, False), (True, False), (None, True, False), (None, True, False),
-                                                                                          (True, False), (False, True), (False, True)):
+                                                                                          (True, False), (False, True), WINDOWS):
             calls = []
 
             def walk(path):
@@ -241,8 +246,24 @@ def walk_contract(ck, ld):
             ld.os = types.SimpleNamespace(path=os.path, walk=walk, listdir=lambda p: [], sep=os.sep)
             ld._yield_matching_files = lister
             kw = dict(recursive=recursive, reverse=reverse, include_drf=inc_drf, include_dmd=inc_dmd, include_drf_properties=pdrf, include_dmd_properties=pdmd)
-            if window:
+            want_win = (None, None)
+            EP = _dt.datetime(1970, 1, 1, tzinfo=_dt.timezone.utc)
+            if window is True:
                 kw.update(starttime=S0, endtime=E0)
+                want_win = (S0 - EP, E0 - EP)
+            elif window:
+                wname, wtz = window
+                s_in = S0.replace(tzinfo=None) if wtz is None else S0.astimezone(wtz)
+                e_in = E0.replace(tzinfo=None) if wtz is None else E0.astimezone(wtz)
+                if wname == "start_only":
+                    kw.update(starttime=s_in)
+                    want_win = (S0 - EP, None)
+                elif wname == "end_only":
+                    kw.update(endtime=e_in)
+                    want_win = (None, E0 - EP)
+                else:
+                    kw.update(starttime=s_in, endtime=e_in)
+                    want_win = (S0 - EP, E0 - EP)
             try:
                 try:
                     got = list(ld.ilsdrf(top, **kw))
@@ -274,10 +295,14 @@ def walk_contract(ck, ld):
                         visit((rel + "/" + d_) if rel else d_)
             visit("")
             got_calls = [(c[0], sorted(c[1]), sorted(c[2]), c[3], c[4]) for c in calls]
-            EP = _dt.datetime(1970, 1, 1, tzinfo=_dt.timezone.utc)
-            okw = all((c[5], c[6]) == ((S0 - EP, E0 - EP) if window else (None, None)) and c[7] is reverse for c in calls)
+            okw = all(c[7] is reverse for c in calls)
+            okwin = all((c[5], c[6]) == want_win for c in calls)
+            if not okwin:
+                badw.append((tname, str(window), [(str(c[5]), str(c[6])) for c in calls][:1], (str(want_win[0]), str(want_win[1]))))
             if got != want or got_calls != want_calls or not okw:
                 bad.append((tname, kw if not window else {k: v for k, v in kw.items() if k not in ("starttime", "endtime")}, got if got != want else "calls %s" % (got_calls,), want if got != want else want_calls))
     ck.enumerations.append(("walk.channels_properties_and_order", n, len(bad), bad[:2]))
     ck.struct("walk.channels_properties_and_order", not bad, "ilsdrf deviates from the listing contract in %d of %d cases, e.g. %s" % (len(bad), n, bad[:2]), {})
+    ck.enumerations.append(("walk.window_is_the_instant", n, len(badw), badw[:2]))
+    ck.struct("walk.window_is_the_instant", not badw, "ilsdrf hands the listing a different time window than the instants it was given in %d of %d cases, e.g. %s" % (len(badw), n, badw[:2]), {})
     ck.add_function(pyload.source_info(ld, "ilsdrf"))
